@@ -264,7 +264,11 @@ class ExprAff(Expr):
     def __str__(self):
         return "%s = %s"%(str(self.dst), str(self.src))
     def get_r(self, mem_read=False):
-        return self.src.get_r(mem_read)
+        r = self.src.get_r(mem_read)
+        if isinstance(self.dst, ExprMem):
+            # the address of the written cell is read
+            r = r.union(self.dst.arg.get_r(mem_read))
+        return r
     def get_w(self):
         if isinstance(self.dst, ExprMem):
             return set([self.dst]) #[memreg]
